@@ -9,7 +9,7 @@ from common import hexs
 ASSUMPTIONS = [
     "Flate (zlib) and DCT (libjpeg) are external and not modelled",
     "hash/cipher equality across crypto providers is observed by running the driver under QPDF_CRYPTO_PROVIDER=native/openssl/gnutls, not proved (OpenSSL/GnuTLS are external)",
-    "lzw_decode_encode (decoder inverts the reference encoder) is tested with the extracted reference encoder; proved so far: table/width bounds and chunking independence",
+    "lzw_decode_encode and the TIFF bit-path inversion are theorems about the models (C15ProofsL/M/T.v); the models are tied to Pl_LZWDecoder / Pl_TIFFPredictor by the differential runs only",
 ]
 
 
@@ -126,7 +126,21 @@ def run(chk):
         for e in (0, 1):
             d = bytes(rng.randrange(256) for _ in range(n)) if rng.random() < 0.7 else rand_data(rng, n)
             enc_jobs.append(("ref lzw_enc %d %s" % (e, hexs(d)), "lzw", str(e), d))
-    encoded = common.run_lines(runner, [j[0] for j in enc_jobs], shards=8)
+    # LZW boundaries the proof of lzw_decode_encode splits on (C15ProofsL/M.v): inputs with more than 3838 distinct phrases
+    # (the reference encoder must emit a clear-table code, both EarlyChange values), KwKwK chains (runs, short periods),
+    # and lengths around the code-width changes 511/1023/2047 minus the EarlyChange delta
+    for e in (0, 1):
+        d = bytes(rng.randrange(256) for _ in range(7000 if quick else 16000))
+        enc_jobs.append(("ref lzw_enc %d %s" % (e, hexs(d)), "lzw", str(e), d))
+        d = bytes([rng.randrange(256)]) * 3000
+        enc_jobs.append(("ref lzw_enc %d %s" % (e, hexs(d)), "lzw", str(e), d))
+        per = bytes(rng.randrange(256) for _ in range(rng.choice([2, 3, 5])))
+        d = (per * 2000)[:4000]
+        enc_jobs.append(("ref lzw_enc %d %s" % (e, hexs(d)), "lzw", str(e), d))
+        for n in (252, 253, 254, 255, 256, 257, 764, 765, 766, 767, 768, 769, 1788, 1789, 1790, 1791, 1792, 1793):
+            d = bytes(rng.randrange(256) for _ in range(n + 60))   # random bytes: about one code per byte at the start
+            enc_jobs.append(("ref lzw_enc %d %s" % (e, hexs(d[:n])), "lzw", str(e), d[:n]))
+    encoded = common.run_lines(runner, [j[0] for j in enc_jobs], shards=4)
     b2 = Batch()
     for (line, f, ps, d), enc in zip(enc_jobs, encoded):
         if enc.startswith("?"):
@@ -275,6 +289,89 @@ def run(chk):
             chk.violation({"kind": "property-fails-on-implementation", "part": "encoder-roundtrip", "case": b4.lines[i][:1500], "decoded": got[:1500],
                            "expected": padded.hex()[:1500], "why": "encoder output is not inverted (PNG-up by the reference decoder, TIFF by the decoder) up to row padding"})
     chk.count("predictors", len(b4.lines) + len(rt_lines), nontriv, samples=[{"case": b4.lines[11][:200], "impl": impl4[11][:100]}])
+
+    # ---------- part 4b: TIFF predictor 2, every sample width: independent reference codec (TiffBitsSpec.v) ----------
+    # theorems tiffbits_decode_encode / tiffbits_encoder_is_ref / tiffbits_encoder_inverted (C15ProofsT.v) on the model;
+    # here the same statements on the real Pl_TIFFPredictor: decoder(reference encoding of rows with arbitrary padding bits)
+    # = rows with the unused bits at the end of each row cleared; reference decoder(real encoder output) = the same;
+    # aimed at Columns*Colors*BitsPerComponent not a multiple of 8 (and multiples, where nothing may be lost)
+    tb_jobs = []
+    for bpc in (1, 2, 4, 16, 8, 3, 12, 31, 32):
+        for colors in ((1, 2, 3, 4) if bpc in (1, 2, 4, 16) else (1, 3)):
+            for cols in ((1, 2, 3, 4, 5, 7, 8, 9, 17) if (not quick or bpc in (1, 2, 4, 16)) else (1, 3, 5)):
+                bpr = (cols * bpc * colors + 7) // 8
+                for nrows in (1, 3):
+                    kind = rng.random()
+                    if kind < 0.6:
+                        d = bytes(rng.randrange(256) for _ in range(bpr * nrows))
+                    elif kind < 0.8:
+                        d = bytes([0xff]) * (bpr * nrows)
+                    else:
+                        d = bytes(rng.choice([0, 0x80, 0x7f, 0xff, 1]) for _ in range(bpr * nrows))
+                    tb_jobs.append(("%d,%d,%d" % (cols, colors, bpc), d, (cols * bpc * colors) % 8))
+    tb_ref = common.run_lines(runner, [x for ps, d, _ in tb_jobs for x in ("tfb enc %s %s" % (ps, hexs(d)), "tfb clr %s %s" % (ps, hexs(d)))], shards=4)
+    b4b = Batch()
+    for k, (ps, d, rem) in enumerate(tb_jobs):
+        enc, clr = tb_ref[2 * k], tb_ref[2 * k + 1]
+        if enc.startswith("?") or clr.startswith("?"):
+            raise common.InfraError("reference TIFF codec failed: %s -> %s %s" % (ps, enc, clr))
+        e = bytes.fromhex(enc)
+        b4b.add("filt tiffd %s %s" % (ps, cstr(rng.choice(chunkings(rng, e, k=1)))), f="tiffd", ps=ps, d=d, want=clr, rem=rem)
+        b4b.add("filt tiffe %s %s" % (ps, cstr(rng.choice(chunkings(rng, d, k=1)))), f="tiffe", ps=ps, d=d, want=clr, rem=rem, enc=enc)
+    impl4b = common.run_lines(drv, b4b.lines, shards=4)
+    model4b = common.run_lines(runner, b4b.lines, shards=4)
+    dec4b = common.run_lines(runner, ["tfb dec %s %s" % (m["ps"], impl4b[i].split(" ")[0]) if m["f"] == "tiffe" and impl4b[i].endswith(" 0") else "tfb clr 1,1,8 00"
+                                      for i, m in enumerate(b4b.meta)], shards=4)
+    encclr = common.run_lines(runner, ["tfb clr %s %s" % (m["ps"], m["enc"]) if m["f"] == "tiffe" else "tfb clr 1,1,8 00" for m in b4b.meta], shards=4)
+    nontriv = set()
+    for i, m in enumerate(b4b.meta):
+        bad = None
+        if m["f"] == "tiffd" and impl4b[i] != m["want"] + " 0":
+            bad = ("predictor-decoder-inverts-reference-encoder", "real TIFF decoder does not return the rows (unused end-of-row bits cleared) that the independent reference encoder encoded")
+        elif m["f"] == "tiffe" and (not impl4b[i].endswith(" 0") or dec4b[i] != m["want"]):
+            bad = ("encoder-inverted-by-reference-decoder", "independent reference TIFF decoder does not recover the rows from the real encoder's output")
+        elif m["f"] == "tiffe" and impl4b[i].split(" ")[0] != encclr[i]:
+            bad = ("encoder-is-reference-encoding", "real TIFF encoder output differs from the reference differencing with zero padding bits")
+        if bad:
+            chk.violation({"kind": "property-fails-on-implementation", "part": bad[0], "filter": m["f"], "case": b4b.lines[i][:1500], "original": m["d"].hex()[:1500],
+                           "implementation": impl4b[i][:1500], "expected": m["want"][:1500], "model": model4b[i][:1500], "why": bad[1]})
+        elif impl4b[i] != model4b[i]:
+            tie_total.append((b4b.lines[i][:400], impl4b[i][:400], model4b[i][:400]))
+        if m["rem"]:
+            nontriv.add(b4b.lines[i])
+    chk.count("tiff-bitpath-reference", 4 * len(b4b.lines), nontriv, samples=[{"case": b4b.lines[3][:200], "impl": impl4b[3][:100]}])
+
+    # ---------- part 4c: bytes after the EOD marker (a stream whose /Length also counts a trailing EOL, or junk) ----------
+    # ISO 32000-1 7.4.2-7.4.5: '>' / '~>' / code 257 / length byte 128 end the data. Theorems a85_stops_at_eod (C15ProofsR.v);
+    # for RunLength the statement is refuted on the faithful model (rld_stops_at_eod_refuted) = finding C15-F1-runlength-eod.
+    ae_jobs = []
+    tails = [b"\r\n", b"\n", b"\r", b" ", b"\x00", b"\x00A", b"\x80", b"\x01AB", b"\xfeZ", b"~>", b">", b"zzzz", b"\x80\x00A"]
+    for n in (0, 1, 2, 3, 4, 5, 7, 8, 64, 127, 128, 129, 300):
+        d = rand_data(rng, n)
+        for f, ps, line in (("ahx", "-", "ref ahx_enc - %s u/-/-" % hexs(d)), ("a85", "-", "ref a85_enc - %s" % hexs(d)),
+                            ("rld", "-", "ref rl_enc - %s" % hexs(d)), ("lzw", "0", "ref lzw_enc 0 %s" % hexs(d)), ("lzw", "1", "ref lzw_enc 1 %s" % hexs(d))):
+            ae_jobs.append((line, f, ps, d))
+    ae_enc = common.run_lines(runner, [j[0] for j in ae_jobs], shards=4)
+    b4c = Batch()
+    for (line, f, ps, d), enc in zip(ae_jobs, ae_enc):
+        if enc.startswith("?"):
+            raise common.InfraError("reference encoder failed: %s -> %s" % (line[:80], enc))
+        e = bytes.fromhex(enc) if enc != "-" else b""
+        for t in rng.sample(tails, 4) + [bytes(rng.randrange(256) for _ in range(rng.randint(1, 6)))]:
+            b4c.add("filt %s %s %s" % (f, ps, cstr(rng.choice(chunkings(rng, e + t, k=1)))), f=f, d=d, tail=t)
+    impl4c = common.run_lines(drv, b4c.lines, shards=4)
+    model4c = common.run_lines(runner, b4c.lines, shards=4)
+    nontriv = set()
+    for i, m in enumerate(b4c.meta):
+        if impl4c[i] != hexs(m["d"]) + " 0":
+            chk.violation({"kind": "property-fails-on-implementation", "part": "data-after-eod", "filter": m["f"], "case": b4c.lines[i][:1500],
+                           "original": m["d"].hex()[:1500], "tail_after_eod": m["tail"].hex(), "implementation": impl4c[i][:1500], "model": model4c[i][:1500],
+                           "why": "the decoder does not stop at the EOD marker: bytes after it change the decoded data"},
+                          signature="C15:%s-data-after-eod" % m["f"])
+        if impl4c[i] != model4c[i]:
+            tie_total.append((b4c.lines[i][:400], impl4c[i][:400], model4c[i][:400]))
+        nontriv.add((m["f"], m["d"], m["tail"]))
+    chk.count("data-after-eod", len(b4c.lines), nontriv, samples=[{"case": b4c.lines[2][:200], "impl": impl4c[2][:100]}])
 
     # ---------- part 5: malformed streams into every decoder (outcome class + bytes) ----------
     b5 = Batch()
